@@ -2,6 +2,7 @@ CONSTANTS
     Shape <- Shape5
     EpochOrderStrict = FALSE
     CacheSound = FALSE
+    FetchedHashChecked = FALSE
     MaxAlter = 1
     TamperFields = {"resign", "prev", "epoch", "avk", "params", "msgEpoch", "nextAvk", "nextParams", "signedMsg", "sig", "kind", "genSig"}
     MsgModes = {"k", "d", "r"}
